@@ -293,6 +293,21 @@ func c17Str(c *hx.Ctx, s string) {
 				return
 			}
 		}
+		// input that does not end in the terminator is an error even when a terminator occurs earlier
+		// (a string list that lost its final terminator, a value followed by stray code units)
+		for _, tail := range [][]byte{{'c', 0}, {'c', 0, 'd', 0}, {0, 1}, {0xff}} {
+			in := append(append([]byte{}, want...), tail...)
+			var perr error
+			var pgot string
+			if pp := hx.Try(func() { pgot, perr = util.ParseUtf16Var(bytes.NewBuffer(in)) }); pp != nil {
+				c.Outcome("unterminated-crash(C14)")
+				continue
+			}
+			if perr == nil {
+				bad("input that does not end in the terminator is accepted (a terminator occurs earlier in it)", fmt.Sprintf("%s -> %q", hx8(in), pgot), "an error")
+				return
+			}
+		}
 		c.Outcome("string-ok")
 		c.Nontrivial([]byte(s))
 	})
